@@ -173,5 +173,14 @@ def run(ctx):
         xref.cross_check(ctx, F, ["string_slice", "unwrap_used", "expect_used", "indexing_slicing", "panic"])
         from rules import selftest
         selftest.run(ctx, ["str-guard"])
+    # "every value obtained this way can be handed to the evaluator without panicking": a parsed combo of one card twice makes
+    # the evaluator's table lookups go out of bounds, so the distinct-cards guards (C10's rule) are part of this property
+    try:
+        from rules import c10
+        from sa.report import PrefixCtx
+        c10.rule_distinct(PrefixCtx(ctx, "C10", "C09"), TM)
+    except (Unrecognised, NameError) as e:
+        if isinstance(e, Unrecognised):
+            ctx.unrecognised("C09.distinct-cards", e.msg, e.fn, e.line)
     ctx.assume("regex and std functions outside the panicking-callee table are total; allocation does not fail")
     ctx.assume("tokens handed to expansion were obtained by parsing (HandRangeToken::new with arbitrary fields is outside the property)")
